@@ -490,6 +490,7 @@ Lemma top_parse_cons f raw rest :
   top_parse (S f) (raw :: rest) =
   let t := strip (strip_inline_comment raw) in
   if is_nil t || starts_hash t then top_parse f rest
+  else if top_target t then top_parse f rest
   else if top_import t then top_parse f rest
   else if (indent_of raw =? 0)%nat && re_while_true t then
     let blk := take_block O rest in
@@ -546,6 +547,7 @@ Section TopLine.
     unfold parse_top. cbn [length]. rewrite !top_parse_cons. cbv zeta.
     rewrite raw_code, raw_code_plain, raw_indent.
     destruct (is_nil h || starts_hash h); [reflexivity|].
+    destruct (top_target h); [reflexivity|].
     destruct (top_import h); [reflexivity|].
     destruct ((indent_of h =? 0)%nat && re_while_true h); [reflexivity|].
     destruct ((indent_of h =? 0)%nat && re_while h).
